@@ -476,8 +476,10 @@ func genG04(repo string, w *Out) error {
 		w.DefStr("errname_"+m.key, en)
 	}
 	bafd, _ := hp.Func("HTTPProxy.basicAuth")
-	if s := hp.Src(bafd.Body); !strings.Contains(s, "user := u.Username() pass, _ := u.Password() ba := middleware.NewProxyBasicAuth()") {
-		return fmt.Errorf("basicAuth: construction not in the known shape")
+	for _, st := range []string{"user := u.Username()", "pass, _ := u.Password()", "ba := middleware.NewProxyBasicAuth()"} {
+		if s := hp.Src(bafd.Body); !strings.Contains(s, st) {
+			return fmt.Errorf("basicAuth: statement %q not found", st)
+		}
 	}
 
 	// setBasicAuth (C06): when are site credentials attached?
